@@ -8,9 +8,14 @@ from gen import date as G
 def main():
     chk = common.Check('C18')
     import date_common as D
-    proved = chk.prove('I18n.Props.C18', generated=('date',))
-    problems = ' '.join(chk.lean.problems)
-    driver_ok = os.path.exists(common.driver_path()) and not any('untranslatable' in s for s in chk.lean.translation.values()) \
+    proved = chk.prove('I18n.Props.C18', generated=('date', 'gettextdate', 'checkdates'), extra_targets=())
+    problems = ' '.join(p for p in chk.lean.problems if 'translator(gettextdate)' not in p and 'translator(checkdates)' not in p)
+    # the tie by translation: fix_date_format / parse_date regenerated from the current lib/gettext.py and proved equal to the model (Props/C18Tie.lean)
+    tie_ok = common.prove_tie(chk, 'I18n.Props.C18Tie', ('gettextdate', 'checkdates'),
+                              'fix_date_format / parse_date regenerated from the current lib/gettext.py (Generated/GettextDate.lean) are no longer proved equal to '
+                              'Date.fix / Date.parseCanon, or Checker.check_dates regenerated from the current lib/check/__init__.py (Generated/CheckDates.lean) to Date.checkDates '
+                              '(generated_fix_date_format_eq_model, generated_parse_date_eq_model, generated_check_dates_eq_model and the restated headline theorems)')
+    driver_ok = os.path.exists(common.driver_path()) and not any('untranslatable' in s for k, s in chk.lean.translation.items() if k not in ('gettextdate', 'checkdates')) \
         and 'Driver' not in problems and 'I18n.Model' not in problems and 'I18n.Generated' not in problems
     rng = chk.rng
     abbrs = D.abbreviations()
@@ -43,6 +48,8 @@ def main():
             lines = ['date fix %s %s' % (D.hexs(s), 'none' if h is None else D.hexs(h)) for s, h in pairs]
             outs = [D.impl_fix(s, h) for s, h in pairs]
             dis, _ = chk.stream('date-fix-' + name, lines, outs)
+            if tie_ok:      # the same inputs through the definition regenerated from lib/gettext.py
+                chk.stream('date-fix-' + name + '-generated', [l.replace('date fix ', 'date gfix ', 1) for l in lines], outs)
             disagreeing += [pairs[i] for i in dis]
             for (s, h), o in zip(pairs, outs):
                 if o.startswith('ok'):
@@ -53,11 +60,15 @@ def main():
         lines = ['date instant ' + D.hexs(t) for t in texts]
         outs = [D.impl_instant(t) for t in texts]
         chk.stream('date-instant', lines, outs)
+        if tie_ok:
+            chk.stream('date-instant-generated', [l.replace('date instant ', 'date ginstant ', 1) for l in lines], outs)
         # the calendar itself: parse_date (strptime + datetime) against the model over the whole domain of dates
         cal = G.calendar_texts(rng, chk.thorough)
         lines = ['date instant ' + D.hexs(t) for t in cal]
         outs = [D.impl_instant(t) for t in cal]
         dis, _ = chk.stream('date-calendar', lines, outs)
+        if tie_ok:
+            chk.stream('date-calendar-generated', [l.replace('date instant ', 'date ginstant ', 1) for l in lines], outs)
         disagreeing += [(cal[i], None) for i in dis]
     else:
         chk.broken.append({'kind': 'correspondence', 'stream': 'date-*', 'problem': 'driver could not be rebuilt from the regenerated model'})
@@ -69,6 +80,8 @@ def main():
         lines = [c.line() for c in ctxs]
         outs = [D.impl_check(c) for c in ctxs]
         dis, _ = chk.stream('date-check', lines, outs)
+        if tie_ok:      # the same contexts through Checker.check_dates regenerated from lib/check/__init__.py
+            chk.stream('date-check-generated', [l.replace('date check ', 'date gcheck ', 1) for l in lines], outs)
         bad_ctx = [ctxs[i] for i in dis]
         kinds = {}
         for o in outs:
@@ -93,6 +106,8 @@ def main():
             lines = [c.line() for c, _ in fcases]
             outs = [D.impl_file(c, p) for (c, _), p in zip(fcases, fpaths)]
             dis, _ = chk.stream('date-file', lines, outs)
+            if tie_ok:
+                chk.stream('date-file-generated', [l.replace('date check ', 'date gcheck ', 1) for l in lines], outs)
             bad_files = dis
         file_reports = []
         for i in list(bad_files) + list(range(len(fcases))):
@@ -156,7 +171,11 @@ def main():
                  'written down from data/timezones as of /repo 14c240b); it defines "known abbreviation / unique offset" for the pin timezones_ref_pin and for the falsifier',
                  'Python re finds a derivation of the dumped sre_parse tree iff one exists (Spec/DateRe.lean semantics); the scanners are proved equal to the trees',
                  'strptime / datetime / aware comparison are modelled (parseCanon, Stamp.minutes), tied by the date-fix-* and date-instant streams',
-                 'the correspondence harness (tools/checks/date_common.py, Driver/Date.lean); misc.utc_now is patched in the harness only'],
+                 'the correspondence harness (tools/checks/date_common.py, Driver/Date.lean); misc.utc_now is patched in the harness only',
+                 'tie by translation + proof: tools/translate/gettextdate2lean.py (over tools/translate/pytr core + objfn) is trusted; the kit Model/DatePy.lean is shared by both sides '
+                 'of the equalities (the scanners standing for _parse_date / _search_for_date_boilerplate, parseCanon standing for strptime, str.strip, the dumped _timezones); '
+                 'fix_date_format and parse_date regenerated from the current lib/gettext.py are PROVED equal to Date.fix / Date.parseCanon (Props/C18Tie.lean) and run against CPython in the *-generated streams; '
+                 'tools/translate/checkdates2lean.py likewise for Checker.check_dates (ctx.metadata, misc.utc_now, self.tag, datetime comparison as kit primitives over the model Ctx)'],
         explanation='Proved for all strings s and all hints (Props/C18.lean): fix_canonical, fix_idempotent, fix_preserves, written_unique, '
                     'fix_accepts (completeness), fix_rejects (exact classification of the five outcomes; the assertion never fails; the only '
                     'outcome besides ok / DateSyntaxError / BoilerplateDate is the ValueError for a malformed hint), fix_tool_outcomes, '
@@ -169,7 +188,12 @@ def main():
                     'hints accepted by strptime %z but not of the form +HHMM tripped the length assertion or gave a non-ASCII result. '
                     'OUTSTANDING: nothing stated in the design is missing. Modelled rather than verified: strptime / datetime / comparison of '
                     'aware datetimes (tied by the date-fix-*, date-instant, date-check streams over the calendar boundaries); Python re is trusted to '
-                    'implement the declarative semantics of the dumped sre_parse trees. Details: DESIGN-notes/date.md')
+                    'implement the declarative semantics of the dumped sre_parse trees. '
+                    'TIE BY TRANSLATION (Props/C18Tie.lean): Generated/GettextDate.lean is rewritten from the current lib/gettext.py on every run (fix_date_format, parse_date) and proved '
+                    'equal to the model for all strings and hints, results and exception classes (generated_fix_date_format_eq_model, generated_parse_date_eq_model); fix_canonical, '
+                    'fix_idempotent, fix_preserves, fix_accepts, fix_rejects (also: no AssertionError, no KeyError, the kit never used outside its domain), fix_tool_outcomes, parse_canon_iff are '
+                    'restated about the regenerated definitions (*_generated); Checker.check_dates is regenerated as well (Generated/CheckDates.lean, tools/translate/checkdates2lean.py) and proved equal to '
+                    'Date.checkDates for all contexts (generated_check_dates_eq_model), never raising (check_dates_nocrash_generated) and of the proved shape (check_dates_shape_generated). Details: DESIGN-notes/date.md')
 
 if __name__ == '__main__':
     common.main_wrapper(main)
